@@ -131,6 +131,43 @@ fn scenario(name: &str, n: usize) -> serde_json::Value {
                 drop(evs); // opaque messages dropped without decoding
             }
         },
+        "router_cycle" => {
+            use ipc_channel::router::RouterProxy;
+            for i in 0..n {
+                let proxy = RouterProxy::new();
+                let mut txs = Vec::new();
+                let (done_tx, done_rx) = crossbeam_channel::unbounded::<u32>();
+                for j in 0..3u32 {
+                    let (tx, rx) = ipc::channel::<u32>().unwrap();
+                    let d = done_tx.clone();
+                    proxy.add_route(rx.to_opaque(), Box::new(move |m| drop(d.send(m.to::<u32>().unwrap_or(999)))));
+                    tx.send(j).unwrap();
+                    txs.push(tx);
+                }
+                let xr = {
+                    let (tx, rx) = ipc::channel::<u32>().unwrap();
+                    tx.send(7).unwrap();
+                    txs.push(tx);
+                    proxy.route_ipc_receiver_to_new_crossbeam_receiver(rx)
+                };
+                for _ in 0..3 {
+                    if done_rx.recv_timeout(std::time::Duration::from_secs(3)).is_err() {
+                        notes.push("routed message did not arrive".into());
+                    }
+                }
+                if xr.recv_timeout(std::time::Duration::from_secs(3)) != Ok(7) {
+                    notes.push("forwarded message did not arrive".into());
+                }
+                if i % 2 == 0 {
+                    txs.clear();
+                }
+                proxy.shutdown();
+                drop(proxy);
+                drop(txs);
+            }
+            // the router threads exit right after acknowledging: give their receiver sets a moment to be dropped
+            std::thread::sleep(std::time::Duration::from_millis(150));
+        },
         "server_bad_tmpdir" => {
             // a temp dir whose socket path does not fit sun_path: new() must fail without leaking its socket
             let long = std::env::temp_dir().join("x".repeat(120));
